@@ -41,7 +41,9 @@ Qed.
 
 Lemma do_many_srch hk ls s ms s' r n : do_many hk ls s ms = (s', r, n) -> h_srch (s_h s') = h_srch (s_h s).
 Proof.
-  destruct ms as [|[u fresh o|] ms]; [intros H; inv H; reflexivity| |intros H; cbn in H; inv H; reflexivity].
+  destruct ms as [|[u fresh o|] ms]; [intros H; inv H; reflexivity| |].
+  2: { intros H. destruct (many_other_first _ _ _ _ _ _ _ H) as [_ [[E|E] _]]; rewrite E; [reflexivity|].
+       destruct (db_schema ls (s_h s) (w_disk (s_w s))) as [[h1 mo] eo] eqn:Hs. apply db_schema_srch in Hs. exact Hs. }
   unfold do_many.
   destruct (db_schema ls (s_h s) (w_disk (s_w s))) as [[h1 mo] eo] eqn:Hs. apply db_schema_srch in Hs.
   destruct mo as [m|]; destruct eo as [e0|]; try (intros H; inv H; exact Hs).
@@ -308,6 +310,7 @@ Proof.
     destruct (db_schema ls h0 (w_disk w0)) as [[h1 mo] eo] eqn:Hs. apply db_schema_srch in Hs.
     destruct mo as [m|]; destruct eo as [x|]; try (inv H; cbn; congruence).
     destruct (write_object w0 m u ob). inv H. cbn. congruence.
+  - (* XRmFieldEntry *) repeat break_match; inv H; reflexivity.
 Qed.
 Print Assumptions writes_keep_searches_fg.
 
